@@ -250,6 +250,32 @@ func c12Replay(ops []c12Op) (*c12World, string, int) {
 	return w, "", -1
 }
 
+// c12EDISchema spells a declaration hierarchy as an EDI schema (segment = name + one element).
+func c12EDISchema(ds []*ref.HDecl) string {
+	var rec func(ds []*ref.HDecl) string
+	rec = func(ds []*ref.HDecl) string {
+		var parts []string
+		for _, d := range ds {
+			f := []string{fmt.Sprintf(`"name":%q,"min":%d,"max":%d`, d.Name, d.Min, d.Max)}
+			if d.Target {
+				f = append(f, `"is_target":true`)
+			}
+			if d.Group {
+				f = append(f, `"type":"segment_group"`)
+			} else {
+				f = append(f, `"elements":[{"name":"s","index":1}]`)
+			}
+			if len(d.Children) > 0 {
+				f = append(f, `"child_segments":[`+rec(d.Children)+`]`)
+			}
+			parts = append(parts, "{"+strings.Join(f, ",")+"}")
+		}
+		return strings.Join(parts, ",")
+	}
+	return `{"parser_settings":{"version":"omni.2.1","file_format_type":"edi"},"file_declaration":{"segment_delimiter":"~","element_delimiter":"*","segment_declarations":[` + rec(ds) +
+		`]},"transform_declarations":{"FINAL_OUTPUT":{"object":{}}}}`
+}
+
 // c12Labels are the kinds of node a pass of the search creates: (node type, format)
 type c12Label struct{ typ, format int }
 
@@ -510,7 +536,7 @@ func init() {
 	core.Register(&core.Prop{
 		ID:    "C12",
 		Level: "model_checking",
-		Rule:  "E1: breadth-first search (one pass per label set) over all histories of CreateNode (element node in plain / XML / JSON format; second pass: plain node of type document / element / text / attribute; pool answer newest / fresh / oldest) . AddChild(any live node, any detached root) . RemoveAndReleaseTree(any live node) with at most 5 live nodes, deduplicated by canonical state (sorted forest shapes + pool size); after every operation the real links are compared with a slice-based mirror model, fresh nodes must be blank, pooled nodes reset and never live or duplicated, IDs never repeat (states and transitions counted). E2: every tree delivered through the Transform by all seven readers on corpus inputs and token strings is audited (links, acyclicity, pool membership) at every record and after the terminal result, also through the bare FormatReader whose caller never calls Release and calls Read twice more after the terminal result; a node released twice is caught by the shim pool; E2c: the csv2 / fixedlength2 hierarchy reader on every declaration hierarchy of up to 2 declarations (groups, nesting, (min,max) incl. min 2, every target position) x every line sequence up to 3 (thorough 4); E2b: the XML and JSON stream readers on every document of up to 3 (thorough 4) nodes x 19 / 18 target xpaths (the document root itself with accepting / rejecting filters, children, descendants, nested candidates). E3: 2-3 threads each running a private create/add/remove history under the cooperative scheduler at every pool/atomic operation, preemption bound 2 (all schedules), plus a free-running -race pass of the same bodies",
+		Rule:  "E1: breadth-first search (one pass per label set) over all histories of CreateNode (element node in plain / XML / JSON format; second pass: plain node of type document / element / text / attribute; pool answer newest / fresh / oldest) . AddChild(any live node, any detached root) . RemoveAndReleaseTree(any live node) with at most 5 live nodes, deduplicated by canonical state (sorted forest shapes + pool size); after every operation the real links are compared with a slice-based mirror model, fresh nodes must be blank, pooled nodes reset and never live or duplicated, IDs never repeat (states and transitions counted). E2: every tree delivered through the Transform by all seven readers on corpus inputs and token strings is audited (links, acyclicity, pool membership) at every record and after the terminal result, also through the bare FormatReader whose caller never calls Release and calls Read twice more after the terminal result; a node released twice is caught by the shim pool; E2c: the csv2 / fixedlength2 hierarchy reader on every declaration hierarchy of up to 2 declarations and the EDI reader on every hierarchy of up to 3 (groups, nesting, (min,max) incl. min 2, every target position) x every line sequence up to 3 (thorough 4); E2b: the XML and JSON stream readers on every document of up to 3 (thorough 4) nodes x 19 / 18 target xpaths (the document root itself with accepting / rejecting filters, children, descendants, nested candidates). E3: 2-3 threads each running a private create/add/remove history under the cooperative scheduler at every pool/atomic operation, preemption bound 2 (all schedules), plus a free-running -race pass of the same bodies",
 		Assumptions: []string{
 			"the shim pool (vsync.Pool: LIFO free list with a choice of newest/fresh/oldest on Get) models sync.Pool's freedom to keep, drop and reorder cached objects; the free-running pass uses the real sync.Pool",
 			"the -race pass is not exhaustive over schedules; it relies on the detector's happens-before analysis (exhaustive:false for that part)",
@@ -694,16 +720,28 @@ func c12Run(c *core.Ctx) {
 			maxLen = 4
 		}
 		alphabet := []string{"A", "B", "C", "E", "X"}
-		for _, driver := range []string{"csv2", "fixedlength2"} {
-			for nodes := 1; nodes <= 2; nodes++ {
-				gen.Hierarchies(gen.HierSpec{Nodes: nodes, Depth: 3, Names: []string{"A", "B", "C"}, Occ: occ}, func(_ int, decls []*ref.HDecl) bool {
+		for _, driver := range []string{"csv2", "fixedlength2", "edi"} {
+			maxNodes, names, occs := 2, []string{"A", "B", "C"}, occ
+			if driver == "edi" {
+				// (the EDI reader has a matcher of its own; three declarations, so that a target can sit two
+				// groups below the top)
+				maxNodes, names, occs = 3, []string{"A", "B"}, [][2]int{{0, 1}, {1, 1}, {1, 2}, {0, -1}}
+				alphabet = []string{"A", "B", "X"}
+			}
+			for nodes := 1; nodes <= maxNodes; nodes++ {
+				gen.Hierarchies(gen.HierSpec{Nodes: nodes, Depth: 3, Names: names, Occ: occs}, func(_ int, decls []*ref.HDecl) bool {
 					idx++
 					if !c.Mine(idx) {
 						return true
 					}
 					work := fromJSONDecls(toJSONDecls(decls))
-					c05Adapt(work)
-					st := flatSchema(driver, work, false)
+					var st string
+					if driver == "edi" {
+						st = c12EDISchema(work)
+					} else {
+						c05Adapt(work)
+						st = flatSchema(driver, work, false)
+					}
 					delete(c12Schemas, st) // (one schema per hierarchy: nothing to gain from keeping them)
 					delete(c12Factories, st)
 					names := make([]string, 0, maxLen)
@@ -713,6 +751,9 @@ func c12Run(c *core.Ctx) {
 							names = append(names, alphabet[x])
 						}
 						in := flatInput(driver, mkUnits(names), 0)
+						if driver == "edi" {
+							in = ediInput(mkUnits(names), 0)
+						}
 						cs := c12Case{E2: &c01E2Case{Item: "hierarchy/" + driver, Schema: st, Input: in}}
 						c.Begin(func() interface{} { return cs })
 						sig, detail := c12E2(st, "hierarchy/"+driver, in)
